@@ -333,6 +333,8 @@ enum WOp {
     Write(WriteEv),
     /// a receive of up to this many bytes of the input stream (interim responses may be queued by it)
     Read(usize),
+    /// the owner discards all pending output (public `clear_write_buffer`)
+    Clear,
 }
 
 fn c06_run(ops: &[WOp], obs: &mut Obs) -> Result<(), Fail> {
@@ -366,6 +368,26 @@ fn c06_run_with_input(ops: &[WOp], input: &[u8], obs: &mut Obs) -> Result<(), Fa
                 resp_bounds.push(expected.len());
                 conn.enqueue_response(real);
                 pending_resps += 1;
+            }
+            WOp::Clear => {
+                let r = catch_unwind(AssertUnwindSafe(|| conn.clear_write_buffer()));
+                if let Err(p) = r {
+                    return Err(Fail::new("C06:panic", format!("clear_write_buffer panicked at op {}: {}", i, panic_msg(p))));
+                }
+                if conn.pending_write() {
+                    return Err(Fail::new("C06:failure-pending", format!("op {}: pending output survives clear_write_buffer", i)));
+                }
+                let accepted = ss.borrow().out.len() - epoch_start;
+                if accepted < expected.len() {
+                    obs.label("owner_cleared_pending_output");
+                    obs.nontrivial = true;
+                }
+                // new epoch: nothing of the discarded output may ever appear
+                epoch_start = ss.borrow().out.len();
+                expected.clear();
+                resp_bounds.clear();
+                pending_resps = 0;
+                continue;
             }
             WOp::Read(want) => {
                 if reading_stopped || ss.borrow().pos >= ss.borrow().input.len() {
@@ -512,6 +534,8 @@ fn c06_hist(input: &Input, obs: &mut Obs) -> Result<(), Fail> {
                 calls.push(c);
             }
             ops.push(WOp::Enq(v, code, calls));
+        } else if s.chance(8) {
+            ops.push(WOp::Clear);
         } else {
             let ev = match s.weighted(&[12, 6, 3, 2, 2, 2]) {
                 0 => {
@@ -541,6 +565,7 @@ fn c06_hist(input: &Input, obs: &mut Obs) -> Result<(), Fail> {
                     WOp::Enq(v, c, calls) => format!("enqueue(v{} {} {} calls, {} bytes)", v, c, calls.len(), build_model(*v, *c, calls).bytes().len()),
                     WOp::Write(e) => format!("try_write[{:?}]", e),
                     WOp::Read(n) => format!("try_read[{}]", n),
+                    WOp::Clear => "clear_write_buffer".to_string(),
                 })
                 .collect::<Vec<_>>()
         );
@@ -562,7 +587,8 @@ fn c06_mixed(input: &Input, obs: &mut Obs) -> Result<(), Fail> {
     let nops = s.range(3, 50);
     let mut ops = Vec::new();
     for _ in 0..nops {
-        match s.weighted(&[8, 5, 10]) {
+        match s.weighted(&[8, 5, 10, 1]) {
+            3 => ops.push(WOp::Clear),
             0 => ops.push(WOp::Read([1usize, 7, 40, 200, 1024][s.below(5)])),
             1 => {
                 let code = [200u16, 100, 204, 400][s.below(4)];
@@ -588,7 +614,7 @@ fn c06_mixed(input: &Input, obs: &mut Obs) -> Result<(), Fail> {
     }
     obs.case_hash = Some(fnv64(input.bytes()));
     if obs.want_render {
-        obs.render = format!("stream=\"{}\" ops={:?}", esc(&stream), ops.iter().map(|o| match o { WOp::Enq(v, c, calls) => format!("enqueue(v{} {} {}B)", v, c, build_model(*v, *c, calls).bytes().len()), WOp::Write(e) => format!("try_write[{:?}]", e), WOp::Read(n) => format!("try_read[{}]", n) }).collect::<Vec<_>>());
+        obs.render = format!("stream=\"{}\" ops={:?}", esc(&stream), ops.iter().map(|o| match o { WOp::Enq(v, c, calls) => format!("enqueue(v{} {} {}B)", v, c, build_model(*v, *c, calls).bytes().len()), WOp::Write(e) => format!("try_write[{:?}]", e), WOp::Read(n) => format!("try_read[{}]", n), WOp::Clear => "clear_write_buffer".to_string() }).collect::<Vec<_>>());
     }
     Ok(())
 }
